@@ -6,7 +6,9 @@ use crate::common::*;
 use serde_json::{json, Value};
 use std::collections::HashMap;
 use sudachi::analysis::node::LatticeNode;
+use sudachi::analysis::mlist::MorphemeList;
 use sudachi::analysis::stateful_tokenizer::StatefulTokenizer;
+use sudachi::analysis::stateless_tokenizer::DictionaryAccess;
 use sudachi::analysis::Mode;
 use sudachi::config::ConfigBuilder;
 use sudachi::dic::build::DictBuilder;
@@ -189,6 +191,7 @@ fn gen_text(rng: &mut Rng, words: &[String]) -> String {
     match rng.below(20) {
         0 => return String::new(),
         1 => return crate::c08::rand_string(rng, 10),
+        2..=7 => return gen_dense(rng, words),
         _ => {}
     }
     let n = 1 + rng.below(7);
@@ -215,8 +218,33 @@ struct MorphOut {
 struct Analysis {
     cur: String,
     m2o: Vec<usize>,
-    nodes: Vec<(usize, usize, usize, usize)>,
+    /// path in the coordinates of the rewritten text; None when observed through a reused MorphemeList
+    nodes: Option<Vec<(usize, usize, usize, usize)>>,
     morphs: Vec<MorphOut>,
+    /// an accessor of a reported morpheme (begin/end/begin_c/end_c/surface) panicked: its range does not fit the input
+    accessor_panic: Option<String>,
+}
+
+/// everything the API reports for every morpheme of the list; a panic of an accessor is an observation, not an accident:
+/// tokenization succeeded, so a morpheme whose offsets / surface cannot be obtained is a lost piece of the input
+fn read_morphs<T: DictionaryAccess>(ml: &MorphemeList<T>) -> (Vec<MorphOut>, Option<String>) {
+    let mut out = vec![];
+    for i in 0..ml.len() {
+        let r = catch(|| {
+            let m = ml.get(i);
+            let surface = m.surface().to_string();
+            MorphOut { b: m.begin(), e: m.end(), bc: m.begin_c(), ec: m.end_c(), surface }
+        });
+        match r {
+            Ok(m) => out.push(m),
+            Err(p) => {
+                let before: Vec<(usize, usize)> = out.iter().map(|m| (m.b, m.e)).collect();
+                let msg = format!("morpheme {} of {}: begin/end/surface panicked ({}); byte ranges read before it: {:?}", i, ml.len(), p, before);
+                return (out, Some(msg));
+            }
+        }
+    }
+    (out, None)
 }
 
 fn mode_of(m: u8) -> Mode {
@@ -227,9 +255,9 @@ fn mode_of(m: u8) -> Mode {
     }
 }
 
-/// Ok(None) = tokenization rejected the input (Err); Err = panic
+/// Ok(None) = tokenization rejected the input (Err); Err = tokenization panicked (C03's subject)
 fn analyse(dict: &JapaneseDictionary, text: &str, mode: u8) -> Result<Option<Analysis>, String> {
-    catch(|| {
+    let first = catch(|| {
         // first run: the input buffer and the path in the coordinates of the rewritten text
         let mut tok = StatefulTokenizer::new(dict, mode_of(mode));
         tok.reset().push_str(text);
@@ -253,16 +281,15 @@ fn analyse(dict: &JapaneseDictionary, text: &str, mode: u8) -> Result<Option<Ana
         if tok2.do_tokenize().is_err() {
             return None;
         }
-        let ml = match tok2.into_morpheme_list() {
-            Ok(ml) => ml,
-            Err(_) => return None,
-        };
-        let morphs: Vec<MorphOut> = ml
-            .iter()
-            .map(|m| MorphOut { b: m.begin(), e: m.end(), bc: m.begin_c(), ec: m.end_c(), surface: m.surface().to_string() })
-            .collect();
-        Some(Analysis { cur, m2o, nodes, morphs })
-    })
+        match tok2.into_morpheme_list() {
+            Ok(ml) => Some((cur, m2o, nodes, ml)),
+            Err(_) => None,
+        }
+    })?;
+    Ok(first.map(|(cur, m2o, nodes, ml)| {
+        let (morphs, accessor_panic) = read_morphs(&ml);
+        Analysis { cur, m2o, nodes: Some(nodes), morphs, accessor_panic }
+    }))
 }
 
 fn oracle(text: &str, a: &Analysis) -> Option<String> {
@@ -300,14 +327,18 @@ fn oracle(text: &str, a: &Analysis) -> Option<String> {
 }
 
 fn term(text: &str, a: &Analysis) -> String {
-    format!(
-        "check_c01 {} {} {} {} {}",
-        cbytes(text.as_bytes()),
-        cbytes(a.cur.as_bytes()),
-        clist(a.m2o.iter().map(|x| cnu(*x))),
-        clist(a.nodes.iter().map(|n| format!("({}, {}, {}, {})", cnu(n.0), cnu(n.1), cnu(n.2), cnu(n.3)))),
-        clist(a.morphs.iter().map(|m| format!("mkM {} {} {} {} {}", cnu(m.b), cnu(m.e), cnu(m.bc), cnu(m.ec), cbytes(m.surface.as_bytes()))))
-    )
+    let morphs = clist(a.morphs.iter().map(|m| format!("mkM {} {} {} {} {}", cnu(m.b), cnu(m.e), cnu(m.bc), cnu(m.ec), cbytes(m.surface.as_bytes()))));
+    match &a.nodes {
+        Some(nodes) => format!(
+            "check_c01 {} {} {} {} {}",
+            cbytes(text.as_bytes()),
+            cbytes(a.cur.as_bytes()),
+            clist(a.m2o.iter().map(|x| cnu(*x))),
+            clist(nodes.iter().map(|n| format!("({}, {}, {}, {})", cnu(n.0), cnu(n.1), cnu(n.2), cnu(n.3)))),
+            morphs
+        ),
+        None => format!("check_c01_report {} {} {} {}", cbytes(text.as_bytes()), cbytes(a.cur.as_bytes()), clist(a.m2o.iter().map(|x| cnu(*x))), morphs),
+    }
 }
 
 fn desc(text: &str, mode: u8, st: &Stack, ds: &DictSpec) -> Value {
@@ -338,47 +369,160 @@ fn run_one(sink: &mut Sink, dict: &JapaneseDictionary, text: &str, mode: u8, st:
             sink.case_rust_only(d, false);
             0
         }
-        Ok(Some(a)) => {
-            let rewritten = a.cur != text;
-            let identity = a.m2o.iter().enumerate().all(|(i, x)| i == *x);
-            sink.tag(if rewritten { "text_rewritten" } else { "text_unchanged" });
-            if a.cur.len() > text.len() {
-                sink.tag("rewritten_longer");
-            }
-            if a.cur.len() < text.len() {
-                sink.tag("rewritten_shorter");
-            }
-            if a.morphs.iter().any(|m| m.b == m.e) {
-                sink.tag("has_empty_range_morpheme");
-            }
-            if a.cur.is_empty() {
-                sink.tag("normalised_empty");
-            }
-            sink.tag(&format!("morphemes={}", usize::min(a.morphs.len(), 10)));
-            // very long inputs are checked by the Rust-side statement of the property only (no Coq term of that size)
-            let id = if text.len() > 3000 {
-                sink.tag("long_input_rust_oracle_only");
-                sink.case_rust_only(d, false)
-            } else {
-                sink.case(term(text, &a), d, (!identity || rewritten) && a.morphs.len() > 1)
-            };
-            let o = oracle(text, &a);
-            if verbose {
-                println!("input      : {:?}", text);
-                println!("normalised : {:?}", a.cur);
-                println!("m2o        : {:?}", a.m2o);
-                println!("nodes      : {:?}", a.nodes);
-                for m in &a.morphs {
-                    println!("  {}..{} (cp {}..{}) {:?}", m.b, m.e, m.bc, m.ec, m.surface);
-                }
-                println!("oracle     : {:?}", o);
-            }
-            if let Some(w) = o {
-                sink.fail(id, &w, "");
-            }
-            a.morphs.len()
+        Ok(Some(a)) => record(sink, text, &a, d, verbose),
+    }
+}
+
+/// one successful analysis: tags, Coq term, Rust-side statement of the property
+fn record(sink: &mut Sink, text: &str, a: &Analysis, d: Value, verbose: bool) -> usize {
+    let rewritten = a.cur != text;
+    let identity = a.m2o.iter().enumerate().all(|(i, x)| i == *x);
+    sink.tag(if rewritten { "text_rewritten" } else { "text_unchanged" });
+    if a.cur.len() > text.len() {
+        sink.tag("rewritten_longer");
+    }
+    if a.cur.len() < text.len() {
+        sink.tag("rewritten_shorter");
+    }
+    if a.morphs.iter().any(|m| m.b == m.e) {
+        sink.tag("has_empty_range_morpheme");
+    }
+    if a.cur.is_empty() {
+        sink.tag("normalised_empty");
+    }
+    // a cut of the rewritten text whose image differs from its own offset, behind which the map is not a plain shift:
+    // the situation in which offsets of the rewritten and of the original text can be mixed up
+    if a.m2o.windows(2).enumerate().any(|(i, w)| w[0] != i && w[1] != w[0] + 1 && w[1] != w[0]) {
+        sink.tag("edit_behind_a_length_changing_edit");
+    }
+    sink.tag(&format!("morphemes={}", usize::min(a.morphs.len(), 10)));
+    if verbose {
+        println!("input      : {:?}", text);
+        println!("normalised : {:?}", a.cur);
+        println!("m2o        : {:?}", a.m2o);
+        println!("nodes      : {:?}", a.nodes);
+        for m in &a.morphs {
+            println!("  {}..{} (cp {}..{}) {:?}", m.b, m.e, m.bc, m.ec, m.surface);
         }
     }
+    if let Some(p) = &a.accessor_panic {
+        // no complete report exists: nothing to hand to the model, the failure is the observation itself
+        if verbose {
+            println!("accessors  : {}", p);
+        }
+        let id = sink.case_rust_only(d, false);
+        let what = if a.cur.is_empty() {
+            format!("morphemes reported although the normalised text is empty, and they cannot be read back: {}", p)
+        } else {
+            format!("tokenization succeeded but the morphemes cannot be read back: {}", p)
+        };
+        sink.fail(id, &what, "");
+        return a.morphs.len();
+    }
+    // very long inputs are checked by the Rust-side statement of the property only (no Coq term of that size)
+    let id = if text.len() > 3000 {
+        sink.tag("long_input_rust_oracle_only");
+        sink.case_rust_only(d, false)
+    } else {
+        sink.case(term(text, a), d, (!identity || rewritten) && a.morphs.len() > 1)
+    };
+    let o = oracle(text, a);
+    if verbose {
+        println!("oracle     : {:?}", o);
+    }
+    if let Some(w) = o {
+        sink.fail(id, &w, "");
+    }
+    a.morphs.len()
+}
+
+// ---------------------------------------------------------------- reuse of one tokenizer and one result list
+/// One StatefulTokenizer and one MorphemeList are reused for a whole sequence of inputs
+/// (reset / do_tokenize / collect_results, as the CLI and the Python binding with `out=` do); inputs whose normalised form
+/// is empty are frequent and may come at any position; the mode may be switched between inputs.
+/// Every step is a case of its own; its description holds the whole prefix of the session.
+fn run_session(sink: &mut Sink, dict: &JapaneseDictionary, texts: &[String], modes: &[u8], st: &Stack, ds: &DictSpec, verbose_last: bool) {
+    let mut tok = StatefulTokenizer::new(dict, mode_of(modes[0]));
+    let mut list = MorphemeList::empty(dict);
+    let mut collected_nonempty = 0usize;
+    for k in 0..texts.len() {
+        let text = &texts[k];
+        let verbose = verbose_last && k + 1 == texts.len();
+        let mnames: Vec<&str> = modes[..=k].iter().map(|m| ["A", "B", "C"][*m as usize]).collect();
+        let d = json!({"kind": "c01-session", "texts": &texts[..=k], "modes": mnames,
+                       "stack": {"input": st.input, "oov": st.oov, "rewrite": st.rewrite},
+                       "dict": {"kind": ds.kind, "seed": ds.seed.to_string()}});
+        sink.tag("session_step");
+        let step = catch(|| {
+            tok.set_mode(mode_of(modes[k]));
+            tok.reset().push_str(text);
+            if tok.do_tokenize().is_err() {
+                return None;
+            }
+            let (cur, m2o) = {
+                let inp = tok.verif_input();
+                let cur = inp.current().to_string();
+                let m2o: Vec<usize> = (0..=cur.len()).map(|i| inp.to_orig(i..i).start).collect();
+                (cur, m2o)
+            };
+            if list.collect_results(&mut tok).is_err() {
+                return None;
+            }
+            Some((cur, m2o))
+        });
+        match step {
+            Err(p) => {
+                if verbose {
+                    println!("analysis panicked: {}", p);
+                }
+                sink.tag("analysis_panicked(not C01)");
+                sink.case_rust_only(d, false);
+                return; // the state of tokenizer and list after a panic is nobody's contract
+            }
+            Ok(None) => {
+                if verbose {
+                    println!("tokenization rejected the input");
+                }
+                sink.tag("rejected_by_tokenizer");
+                sink.case_rust_only(d, false);
+            }
+            Ok(Some((cur, m2o))) => {
+                let (morphs, accessor_panic) = read_morphs(&list);
+                if cur.is_empty() {
+                    sink.tag(&format!("session_empty_after_{}_nonempty", usize::min(collected_nonempty, 3)));
+                } else {
+                    collected_nonempty += 1;
+                }
+                let a = Analysis { cur, m2o, nodes: None, morphs, accessor_panic };
+                record(sink, text, &a, d, verbose);
+            }
+        }
+    }
+}
+
+/// texts in which (almost) every segment is rewritten by some input-text plugin, with separators that make morphemes
+/// begin exactly at rewritten segments: with two or more plugins configured, later edits land behind length-changing
+/// earlier ones whatever the order of the plugins is
+const BY_DEFAULT: [&str; 14] = ["ＡＢＣ", "㈱", "㌔", "ｶﾞ", "１２３", "\u{FDFA}", "ＡＢ", "Ⅲ", "ABC", "㍿", "ｱﾊﾟｰﾄ", "½", "ﬁ", "か\u{3099}"];
+const BY_PSM: [&str; 9] = ["ーー", "ーーー", "〜〜", "--", "ー〜〰", "あーー", "すごーーい", "スーーパー", "-ー"];
+const BY_YOMI: [&str; 5] = ["漢字(かんじ)", "東京（とうきょう）", "都(と)", "大学（だいがく）", "京都(きょう)"];
+const SEPARATORS: [&str; 9] = ["、", "。", " ", "に", "東京", "は", "X", "", ""];
+
+fn gen_dense(rng: &mut Rng, words: &[String]) -> String {
+    let n = 2 + rng.below(5);
+    let mut s = String::new();
+    for i in 0..n {
+        if i > 0 {
+            s.push_str(*rng.pick(&SEPARATORS));
+        }
+        match rng.below(7) {
+            0 | 1 => s.push_str(*rng.pick(&BY_DEFAULT)),
+            2 | 3 => s.push_str(*rng.pick(&BY_PSM)),
+            4 | 5 => s.push_str(*rng.pick(&BY_YOMI)),
+            _ => s.push_str(rng.pick(words).as_str()),
+        }
+    }
+    s
 }
 
 fn gen_stack(rng: &mut Rng) -> Stack {
@@ -396,7 +540,7 @@ fn gen_stack(rng: &mut Rng) -> Stack {
 
 pub fn run(args: &Args) {
     let mut sink = Sink::new("C01", &args.out, &["Model.Buffer"], args.seed, &args.tier);
-    sink.rule("real tokenizer (StatefulTokenizer) x plugin stacks {any sub-sequence / some reorderings of NFKC+lower-casing+rewrite table, prolonged-sound-mark collapsing, yomigana deletion} x OOV {simple; mecab+simple; mecab+regex+simple} x path rewriting {none, numeric, katakana, both} x dictionaries {shipped system+user; generated system with well-formed A/B splits; generated system + generated user dictionary referring to it} x modes A/B/C x inputs mixing dictionary words, NFKC-expanding characters (U+FDFA, ㍿, ㌔, half-width kana + marks), yomigana brackets, prolonged marks, numerals, katakana, combining marks, 4-byte characters, empty input. Every case: the path in rewritten-text coordinates, the offset map and everything Morpheme reports. non-trivial = offset map is not the identity and more than one morpheme, distinct Coq term");
+    sink.rule("real tokenizer (StatefulTokenizer) x plugin stacks {any sub-sequence / some reorderings of NFKC+lower-casing+rewrite table, prolonged-sound-mark collapsing, yomigana deletion} x OOV {simple; mecab+simple; mecab+regex+simple} x path rewriting {none, numeric, katakana, both} x dictionaries {shipped system+user; generated system with well-formed A/B splits; generated system + generated user dictionary referring to it} x modes A/B/C x inputs mixing dictionary words, NFKC-expanding characters (U+FDFA, ㍿, ㌔, half-width kana + marks), yomigana brackets, prolonged marks, numerals, katakana, combining marks, 4-byte characters, empty input. Every case: the path in rewritten-text coordinates, the offset map and everything Morpheme reports. Two further input classes: texts in which almost every segment is rewritten by some input-text plugin with separators that make morphemes begin at rewritten segments (later plugins edit behind length-changing earlier ones), and sessions of 3..8 inputs (1/4 empty, at any position, optional mode switches) on ONE tokenizer and ONE MorphemeList through collect_results. A panic of begin/end/surface after a successful tokenization counts as a failure of C01. non-trivial = offset map is not the identity and more than one morpheme, distinct Coq term");
     if let Some(p) = &args.replay {
         let v: Value = serde_json::from_str(&std::fs::read_to_string(p).unwrap()).unwrap();
         let c = &v["case"];
@@ -406,7 +550,7 @@ pub fn run(args: &Args) {
             rewrite: c["stack"]["rewrite"].as_u64().unwrap() as u8,
         };
         let ds = DictSpec { kind: c["dict"]["kind"].as_u64().unwrap() as u8, seed: c["dict"]["seed"].as_str().unwrap().parse().unwrap() };
-        let mode = match c["mode"].as_str().unwrap() {
+        let mode = match c["mode"].as_str().unwrap_or("C") {
             "A" => 0,
             "B" => 1,
             _ => 2,
@@ -414,6 +558,14 @@ pub fn run(args: &Args) {
         let bd = build_dict(&ds).expect("dictionary");
         let dict = load(&bd, &st).expect("load");
         println!("configuration: {}", stack_json(&st));
+        if c["kind"] == "c01-session" {
+            let texts: Vec<String> = c["texts"].as_array().unwrap().iter().map(|x| x.as_str().unwrap().to_string()).collect();
+            let modes: Vec<u8> = c["modes"].as_array().unwrap().iter().map(|m| match m.as_str().unwrap() { "A" => 0, "B" => 1, _ => 2 }).collect();
+            println!("session on one tokenizer and one result list, inputs {:?}, modes {}; the last step:", texts, c["modes"]);
+            run_session(&mut sink, &dict, &texts, &modes, &st, &ds, true);
+            sink.finish();
+            return;
+        }
         run_one(&mut sink, &dict, c["text"].as_str().unwrap(), mode, &st, &ds, true);
         sink.finish();
         return;
@@ -435,6 +587,18 @@ pub fn run(args: &Args) {
                 run_one(&mut sink, &dict, t, mode, &full, &ds0, false);
                 sink.tag("directed");
             }
+        }
+        // reuse sessions: empty inputs first, in the middle, repeated, last
+        for (texts, mode) in [
+            (vec!["", "京都", ""], 2u8),
+            (vec!["京都", "東京都に行った", "", "", "京都"], 2),
+            (vec!["東京都に行った", "京都にいく", "", "東京に行く", " ", "", "京都"], 0),
+            (vec!["ＡＢ東京都（と）にすごーーい", "", "東京都", ""], 1),
+        ] {
+            let texts: Vec<String> = texts.iter().map(|s| s.to_string()).collect();
+            let modes = vec![mode; texts.len()];
+            run_session(&mut sink, &dict, &texts, &modes, &full, &ds0, false);
+            sink.tag("directed");
         }
         // the length limit: exactly MAX_LENGTH bytes would need a 49149-character lattice; only the rejection is exercised here
         let long = "a".repeat(49150);
@@ -481,6 +645,21 @@ pub fn run(args: &Args) {
             if counts[1] > counts[2] {
                 sink.tag("mode_B_splits_further_than_C");
             }
+        }
+        // sessions on one tokenizer + one result list
+        for _ in 0..args.n(2, 6) {
+            let n = 3 + rng.below(6) as usize;
+            let texts: Vec<String> = (0..n)
+                .map(|_| match rng.below(8) {
+                    0 | 1 => String::new(),
+                    2 => gen_dense(&mut rng, &bd.words),
+                    _ => gen_text(&mut rng, &bd.words),
+                })
+                .collect();
+            let m0 = rng.below(3) as u8;
+            let switch = rng.chance(1, 4);
+            let modes: Vec<u8> = (0..n).map(|_| if switch { rng.below(3) as u8 } else { m0 }).collect();
+            run_session(&mut sink, &dict, &texts, &modes, &st, &ds, false);
         }
     }
     sink.finish();
